@@ -76,9 +76,16 @@ def _prune(root):
     # caches made by another version of the generator are useless: remove them (disk is limited)
     if not os.path.isdir(root):
         return
+    # (only when older than three hours: a check started before the generator was edited may still be reading them)
+    import time
     for d in os.listdir(root):
-        if not d.endswith('-' + code_hash()) and '.tmp' not in d:
-            shutil.rmtree(os.path.join(root, d), ignore_errors=True)
+        full = os.path.join(root, d)
+        try:
+            old = time.time() - os.path.getmtime(full) > 3 * 3600
+        except OSError:
+            continue
+        if not d.endswith('-' + code_hash()) and old:
+            shutil.rmtree(full, ignore_errors=True)
 
 
 def make_fonts(kind, seed, count):
